@@ -10,7 +10,7 @@ import z3
 
 from . import externals
 from .interp import Interp, PathState
-from .values import NAN, TAG_PYINT, IdStr, ListObj, Num, Obj, OutOfSubset, PyRaise
+from .values import NAN, TAG_PYINT, IdStr, ListObj, Num, Obj, OutOfSubset, PyRaise, zbool, zreal
 
 # token classes of the reference grammar (names as in TOKEN_TYPES)
 TOKEN_NAMES = ["Constant", "Variable", "Plus", "Minus", "Multiply", "Divide", "Exponent", "Factorial", "OpenParen", "CloseParen", "Function", "Equal"]
@@ -29,6 +29,14 @@ class NumStr:
 
     def concat(self, I, other, reverse):
         return I.fresh_str([self, other])
+
+    def contains(self, I, item):
+        # `"." in text` / `"e" in text` on a digit/dot run
+        if item == ".":
+            return self.n.tag[0]  # the literal has a dot exactly when it denotes a float
+        if isinstance(item, str) and item and all(c not in "0123456789." for c in item):
+            return False
+        raise OutOfSubset(f"substring test {item!r} on a numeric literal")
 
 
 def make_interp(repo) -> Interp:
@@ -49,8 +57,78 @@ def make_interp(repo) -> Interp:
                 I2.raise_("ValueError", "malformed number", site="coerce_to_number")
         raise OutOfSubset("coerce_to_number of a non-literal")
 
+    # the real coerce_to_number is executed; int() / float() of the literal text are the assumed parts
+    def py_int(I2, args, kw):
+        (v,) = args
+        if isinstance(v, NumStr):
+            if v.malformed or I2.truth(zbool(v.n.tag[0]), "literal-has-dot"):
+                I2.raise_("ValueError", "invalid literal for int()", site="int(text)")
+            return Num(v.n.v, (False, False))
+        raise OutOfSubset("int() of a non-literal")
+
+    def py_float(I2, args, kw):
+        (v,) = args
+        if isinstance(v, NumStr):
+            if v.malformed:
+                I2.raise_("ValueError", "could not convert string to float", site="float(text)")
+            # correctly rounded: exact for literals with a dot as far as the real model goes, but an
+            # INTEGER literal that goes through float loses exactness beyond 2^53
+            return Num(zreal(v.n), (True, False), rounded=not (v.n.tag[0] is True))
+        raise OutOfSubset("float() of a non-literal")
+
+    I.external["py.int"] = py_int
+    I.external["py.float"] = py_float
+    # in the enumeration coerce_to_number is used through its contract (proved by prove_coerce below)
     I.contracts["coerce_to_number"] = c_coerce
     return I
+
+
+def prove_coerce(I: Interp):
+    """coerce_to_number against its contract: a literal without a dot gives the exact Python int, one
+    with a dot the float; it never goes through a float for an integer literal; malformed -> ValueError."""
+    from .explore import explore, prove
+
+    saved = I.contracts.pop("coerce_to_number", None)
+    out = []
+
+    def path(ps):
+        I.ps = ps
+        I.call_depth = 0
+        mal = ps.choose(2, "malformed") == 1
+        v = z3.Real("lit")
+        isf = z3.Bool("lit_has_dot")
+        ps.assume(v >= 0)
+        ps.assume(z3.Implies(z3.Not(isf), z3.IsInt(v)))
+        lit = NumStr(Num(v, (isf, False)), malformed=mal)
+        f = I.get_func("mathy_core.tokenizer", "coerce_to_number")
+        try:
+            r = I.call_function(f, [lit], {}, use_contract=False)
+        except PyRaise as pr:
+            ok = pr.exc.clsname == "ValueError" and (mal or prove(ps.pc, [], isf, timeout_ms=3000).status != "refuted" and False)
+            return [{"clause": "coerce_to_number/raises-ValueError-only-for-a-malformed-literal", "ok": bool(pr.exc.clsname == "ValueError" and mal), "detail": f"{pr.exc.clsname} at {pr.site}"}]
+        if mal:
+            return [{"clause": "coerce_to_number/malformed-literal-raises-ValueError", "ok": False, "detail": f"returned {r!r}"}]
+        res = []
+        okv = isinstance(r, Num) and prove(ps.pc, [], zreal(r) == v, timeout_ms=3000).status == "proved"
+        res.append({"clause": "coerce_to_number/value-is-the-literal", "ok": okv, "detail": repr(r)})
+        if isinstance(r, Num):
+            okt = prove(ps.pc, [], zbool(r.tag[0]) == isf, timeout_ms=3000).status == "proved"
+            res.append({"clause": "coerce_to_number/int-without-dot-float-with-dot", "ok": okt, "detail": f"tag {r.tag}"})
+            isint = prove(ps.pc, [], z3.Not(isf), timeout_ms=3000).status == "proved"
+            if isint:
+                res.append({"clause": "coerce_to_number/integer-literal-never-goes-through-float", "ok": not getattr(r, "rounded", False), "detail": "int(float(text)) is inexact beyond 2^53"})
+        return res
+
+    try:
+        for o in explore(path):
+            if o.error is not None:
+                out.append({"clause": "coerce_to_number/in-subset", "ok": False, "detail": f"out-of-subset: {o.error}", "undecided": True})
+            else:
+                out += o.result
+    finally:
+        if saved is not None:
+            I.contracts["coerce_to_number"] = saved
+    return out
 
 
 def token_objs(I: Interp, types: List[str], tt: Dict[str, int], tag_int: Optional[bool] = None) -> Tuple[ListObj, Dict[int, Any]]:
